@@ -31,7 +31,7 @@ Fixpoint delivered_bytes (o : list rdout) : nat :=
 Fixpoint accepted_bytes (tr : list ibbflabel) : nat :=
   match tr with
   | [] => 0
-  | FData n :: rest => n + accepted_bytes rest
+  | FData _ n :: rest => n + accepted_bytes rest
   | _ :: rest => accepted_bytes rest
   end.
 
@@ -42,7 +42,7 @@ Lemma accepted_app a b : accepted_bytes (a ++ b) = accepted_bytes a + accepted_b
 Proof. induction a as [|x a IH]; cbn; [reflexivity|]. destruct x; rewrite ?IH; lia. Qed.
 
 (* bytes of a packet whose handler holds the lock and has not appended yet *)
-Definition pending_bytes (s : ibbfstate) : nat := match fb_h s with FHLocked n => n | _ => 0 end.
+Definition pending_bytes (s : ibbfstate) : nat := match fb_h s with FHLocked _ n => n | _ => 0 end.
 
 Lemma rd_take_bytes s cap :
   fb_buf s <> 0 ->
@@ -144,9 +144,9 @@ Qed.
 
 (* a blocked reader is released by the next accepted packet, by a close, and
    by nothing else; the packet's notification is enabled and wakes it *)
-Lemma ibbf_waiting_is_woken s n s1 s2 :
+Lemma ibbf_waiting_is_woken s c n s1 s2 :
   FInv s -> fb_rd s = FWaiting -> fb_h s = FHIdle ->
-  ibbf_step s (FData n) = Some s1 -> ibbf_step s1 FCheck = Some s2 ->
+  ibbf_step s (FData c n) = Some s1 -> ibbf_step s1 FCheck = Some s2 ->
   exists s3, ibbf_step s2 FNotify = Some s3 /\ fb_rd s3 = FWoken true.
 Proof.
   intros I Ew Eh H1 H2. destruct (fi_waiting _ I Ew) as [Ec Et].
@@ -247,31 +247,48 @@ Qed.
 Lemma ibbf_local_progress s :
   (fb_rd s = FChecked -> ibbf_enabled s FWait) /\
   (forall o, fb_rd s = FWoken o -> fb_h s = FHIdle -> forall cap, ibbf_enabled s (FWake (S cap))) /\
-  (forall n, fb_h s = FHLocked n -> ibbf_enabled s FCheck) /\
+  (forall c n, fb_h s = FHLocked c n -> ibbf_enabled s FCheck) /\
   (fb_h s = FHNotify -> ibbf_enabled s FNotify).
 Proof.
   unfold ibbf_enabled. repeat split.
   - intros E. cbn [ibbf_step]. rewrite E. destruct (fb_tok s); [discriminate|]. destruct (fb_closed s); discriminate.
   - intros o E Eh cap. cbn [ibbf_step]. rewrite E, Eh.
     destruct (Nat.eqb (fb_buf s) 0); [destruct o|]; discriminate.
-  - intros n E. cbn [ibbf_step]. rewrite E. destruct (fb_closed s); discriminate.
+  - intros c n E. cbn [ibbf_step]. rewrite E. destruct (fb_closed s); discriminate.
   - intros E. cbn [ibbf_step]. rewrite E. destruct (fb_closed s); [discriminate|]. destruct (fb_rd s); discriminate.
 Qed.
 
 (* the schedules that broke the pinned design, on the code *)
 Lemma ibbf_window_schedule :
-  exists s, run ibbf_step ibbf_init [FRead 4; FData 3; FCheck; FNotify; FWait; FWake 4] = Some s /\
+  exists s, run ibbf_step ibbf_init [FRead 4; FData CIq 3; FCheck; FNotify; FWait; FWake 4] = Some s /\
             fb_outs s = [RdData 3] /\ fb_rd s = FNone.
 Proof. eexists. split; [vm_compute; reflexivity|]. split; reflexivity. Qed.
 
 Lemma ibbf_empty_packet_schedule :
-  exists s, run ibbf_step ibbf_init [FRead 4; FWait; FData 0; FCheck; FNotify; FWake 4; FWait] = Some s /\
+  exists s, run ibbf_step ibbf_init [FRead 4; FWait; FData CMsg 0; FCheck; FNotify; FWake 4; FWait] = Some s /\
             fb_outs s = [] /\ fb_rd s = FWaiting.
 Proof. eexists. split; [vm_compute; reflexivity|]. split; reflexivity. Qed.
 
 Lemma ibbf_data_after_close_schedule :
-  exists s, run ibbf_step ibbf_init [FCloseLocal] = Some s /\ ibbf_step s (FData 3) = None.
+  exists s, run ibbf_step ibbf_init [FCloseLocal] = Some s /\ ibbf_step s (FData CIq 3) = None.
 Proof. eexists. split; [vm_compute; reflexivity|reflexivity]. Qed.
+
+(* message-carried data that is appended without the notification: a reader
+   already blocked on the empty buffer stays blocked with bytes buffered, and
+   only more IQ-carried data or a close gets it out *)
+Lemma ibbf_msg_silent_loses_wakeup :
+  exists s, run ibbf_step_msg_silent ibbf_init [FRead 4; FWait; FData CMsg 3; FCheck] = Some s /\
+    fb_rd s = FWaiting /\ fb_h s = FHIdle /\ fb_buf s = 3 /\ fb_closed s = false /\
+    ~ f_no_lost_wakeup s.
+Proof.
+  eexists. split; [vm_compute; reflexivity|]. repeat split. intro H. specialize (H eq_refl eq_refl). discriminate.
+Qed.
+
+(* the same schedule on the code: the reader is woken, on either carrier *)
+Lemma ibbf_msg_carrier_wakes c :
+  exists s, run ibbf_step ibbf_init [FRead 4; FWait; FData c 3; FCheck; FNotify; FWake 4] = Some s /\
+    fb_outs s = [RdData 3].
+Proof. destruct c; eexists; (split; [vm_compute; reflexivity|reflexivity]). Qed.
 
 (* ====================================================================== *)
 (* The pinned design: ibb_step (witnesses only)                            *)
